@@ -64,8 +64,12 @@ def cases(tier, rng):
         else:
             b = rng.getrandbits(64)
             if (b >> 52) & 0x7ff != 0x7ff: fl.append(struct.unpack("<d", struct.pack("<Q", b))[0])
+    fl += [0.00001, -0.00007, 0.00054858, 1e-5, 1.5e-5, 9.999e-5, 1.0e-4, 1.25e-10, 3.5e-20, 0.0001, 0.00010001, 123456789012.5, 1e15 + 0.5, 4503599627370496.5]
     for x in dict.fromkeys(fl):
         out.append(("(show-term %s)" % flt(x), "float/show"))
+        # Display followed by parse_term of the text written: a float with a fractional part must come back as the same float
+        for t in (flt(x), cplx("f", flt(x), atom("a")), lst([flt(x)])):
+            c3 = "(show-parse %s)" % t; _VAL[c3] = ("show-parse", t, x); out.append((c3, "float/show-parse"))
     m = 2500 if tier == "quick" else 40000
     seen = set()
     for _ in range(m):
@@ -82,17 +86,33 @@ RULE = ("Decimal texts of 64-bit integers (extremes, -300..300, random magnitude
         "without tail variable or `$_` tail, nested to depth 3): Display of the term gives its canonical text and that text parses "
         "back to the term (theorem C19_roundtrip_terms; both checked on the implementation). Display of floats - the shortest "
         "decimal that reads back, written without exponent - model against implementation on decimal fractions, powers of ten and "
-        "two with their neighbours, subnormals, extremes and random bit patterns. Non-trivial = negative or at least 10 digits.")
+        "two with their neighbours, subnormals, extremes and random bit patterns; and, on the implementation, Display followed by parse_term "
+        "of the text written: a float with a fractional part (also below 1e-4, also inside f(..) and [..]) comes back as the same float. Non-trivial = negative or at least 10 digits.")
 
 def nontrivial(case, tag, result):
     if tag.startswith("canonical"): return "(l " in case or "(c " in case or "[" in pc.uncase(case)[1] if case.startswith("(parse") else True
-    v, _ = _VAL.get(case, (0, None))
+    v = _VAL.get(case, (0, None))[0]
+    if v == "show-parse": return True
     return v < 0 or abs(v) >= 10**9
 
+REL_STATS = {}
+def sx_text(p):
+    return "(" + " ".join(sx_text(x) for x in p) + ")" if isinstance(p, list) else p
 def relations(cases, impl):
+    REL_STATS.clear()
     for (case, tag), (out, res) in zip(cases, impl):
-        v, ctx = _VAL.get(case, (None, None))
+        v, ctx = _VAL.get(case, (None, None))[:2]
         if v is None: continue
+        if v == "show-parse":
+            _, t, x = _VAL[case]
+            if x != x or x in (float("inf"), float("-inf")) or x == int(x): continue      # integer-valued floats print without a period (F2): outside
+            REL_STATS["float_roundtrips"] = REL_STATS.get("float_roundtrips", 0) + 1
+            try: r = sx.parse(res)
+            except Exception: r = None
+            if not (isinstance(r, list) and len(r) == 3 and r[0] == "ok" and sx_text(r[2]) == "(ok %s)" % t):
+                yield dict(case=case, tag=tag, why="a float with a fractional part is printed as a text that does not read back as the same float",
+                           implementation=dict(result=res, expected_parse="(ok %s)" % t))
+            continue
         if v in ("show", "parse"):
             if res != ctx:
                 yield dict(case=case, tag=tag, why=("Display of a canonical term is not its canonical text" if v == "show"
